@@ -56,7 +56,13 @@ No interpretation happens here except:
     by value; `vararg_<f>` names the starred parameter.  `**kwargs` stays outside.
   * (phase 4b) numpy functions used as VALUES (`npmin, npmax = np.nanmin, np.nanmax`; FUNC_VALUES) become the
     constant "<fn:np.nanmin>", and a call `x(args)` whose callee x is a local variable of the function becomes
-    ECallV (PyLite looks the function up in x; no keywords / stars)."""
+    ECallV (PyLite looks the function up in x; no keywords / stars).
+  * (phase 4b) a dict comprehension `{k: v for ..}` becomes `dict([(k, v) for ..])` (PyLite's dicts: string keys,
+    insertion order); `d[k] = v` on a dict is SSetItem, admitted - like every mutation - only for a provably
+    fresh un-escaped dict (Fresh kind "dict": bound to a dict comprehension), or for a fresh data frame (kind
+    "frame": bound to the result of `.aggregate(..)`, which pandas always returns as a new object); what
+    `x[k]` / `x[k] = v` do on a non-dict object is the specification getitem:<class> / setitem:<class> of the
+    template."""
 import ast
 import os
 from fractions import Fraction
@@ -319,6 +325,10 @@ class Translator:
         expr = self.expr
         if isinstance(e, ast.ListComp):
             return self.comp("CList", e.generators, e.elt)
+        if isinstance(e, ast.DictComp):
+            # {k: v for ..} = dict([(k, v) for ..]): key before value, as Python evaluates them
+            pair = ast.Tuple(elts=[e.key, e.value], ctx=ast.Load())
+            return "(ECall %s %s)" % (cstr("dict"), lst([self.comp("CList", e.generators, pair)]))
         if isinstance(e, ast.Name):
             if e.id in self.modules:
                 raise Unsupported("module %s used as a value" % e.id)
@@ -741,6 +751,7 @@ def all_target_names(t):
 # in a `return`.  Any other occurrence (y = x, f(x), (x, y), x.m() ...) makes x non-fresh.  Branches
 # are joined by intersection, loop bodies are iterated to a fixed point, and a loop body may not mutate
 # a name that occurs in the loop's iterable.
+FRESH_METHOD_RESULTS = {"aggregate"}     # methods that always return a new object (pandas' aggregate)
 FRESH_LIST_CALLS = {"list"}
 FRESH_ARRAY_CALLS = {"np.array", "np.unique"}      # always return a new array
 FRESH_ARRAY_CALLS_KW = {"np.zeros", "np.empty", "np.ones_like"}     # fresh also when called with keywords (dtype=)
@@ -753,6 +764,11 @@ class Fresh:
     def kind(self, e):
         if isinstance(e, (ast.List, ast.ListComp)):
             return "list"
+        if isinstance(e, ast.DictComp):
+            return "dict"
+        if (isinstance(e, ast.Call) and isinstance(e.func, ast.Attribute) and e.func.attr in FRESH_METHOD_RESULTS
+                and self.tr.dotted(e.func) is None):
+            return "frame"       # x.groupby(..).aggregate(..): pandas returns a new DataFrame
         if (isinstance(e, ast.Call) and isinstance(e.func, ast.Name) and e.func.id in self.tr.modules
                 and e.func.id[:1].isupper() and not any(isinstance(a, ast.Starred) for a in e.args)):
             return "object"      # Cls(...), Cls an imported class: a new object that nobody else holds
@@ -866,7 +882,7 @@ class Fresh:
                     self.escaping(t.slice, esc)
                     x = t.value.id
                     self.drop(state, esc)
-                    self.need(state, x, ("list", "array"), frozen, "item assignment")
+                    self.need(state, x, ("list", "array", "dict", "frame"), frozen, "item assignment")
                 else:
                     self.drop(state, esc)
                     names = target_names(t)
